@@ -66,6 +66,8 @@ def build_scenarios(work, tier, seed, foreign=True):
             for lv in levels(c, tier):
                 if c == "zstandard" and lv >= 16 and not any(p["name"].startswith(x) for x in slow_ok):
                     continue      # 2-25 s per call whatever the size (see levels()): a subset of the payloads only
+                if p["cls"] == "maxrun" and c not in ("deflate", "snappy") and (tier == "quick" or lv != levels(c, tier)[-1]):
+                    continue      # 4 MiB: every deflate level and snappy; the other codecs at their highest level (thorough)
                 normal.append({"k": "rt", "codec": c, "level": lv, "payload": p["path"], "cls": p["cls"], "pname": p["name"],
                                "full": is_full(c, p)})
     # --- reference-made streams (library must read them)
